@@ -14,3 +14,13 @@ pub(crate) fn to_key<const N: usize>(
     }
     key_bytes.as_ref().try_into().map_err(|_| msg.into())
 }
+
+/// The `ipcrypt-pfx` key is two 16-byte AES keys; the algorithm requires them to differ (the
+/// `ipcrypt_rs` crate asserts it and would panic otherwise).
+pub(crate) fn to_pfx_key(key: Value, ip_ver: &str) -> Result<[u8; 32], ExpressionError> {
+    let key = to_key::<32>(key, "pfx", ip_ver)?;
+    if key[..16] == key[16..] {
+        return Err("pfx mode requires a key whose two 16-byte halves are different".into());
+    }
+    Ok(key)
+}
